@@ -80,6 +80,11 @@ CHECKS = {
    text='Every tree of the C01 families, every C03 prior state x edit, the C09 line-grammar product installed as top-level Manifest, and 45 named odd corners (duplicate IGNORE, unknown/unsupported hash names, out-of-range/surrogate/NUL escapes, entries naming directories or lying beneath files, self-referencing and cyclic MANIFEST entries, unreferenced Manifests in sub-directories and beside the top-level one, non-UTF-8 file names, old-ebuild files/ with stray Manifests...) are run through gemato verify, verify -k, update (whole tree and every sub-directory, three profiles, forced), create: 54k (quick) CLI runs. The only ways out of main() may be a return value, an argparse exit, a logged library error with status 1, or an OSError that re-issuing the call on its filename reproduces.',
    note='Trusted: the classifier in the harness. DONT_CARE: deliberate NotImplementedError for a now-ignored path; corrupt compressed Manifest streams. Two known findings (escaped NUL in a path - pinned by an existing test; unreferenced compressed Manifest beside the top-level one).',
    ref='DESIGN.md §3 C18'),
+ 'C05': dict(level='model_checking',
+   technique='exhaustive enumeration of gpg status-line sequences x exit status through the real verify_file/load/loader/CLI with a scripted subprocess; full enumeration of a real-gpg configuration matrix and of all single-byte mutations of a signed text',
+   text='Part A: every sequence of <=4 (quick, 505k) / <=5 (thorough, 10M) status lines over the 20 keywords real gpg emits x exit status {0,1,2} through the real SystemGPGEnvironment.verify_file (scripted Popen), all sequences of <=3 also through ManifestFile.load, ManifestRecursiveLoader and gemato verify with -s/-P; acceptance iff exit 0, GOODSIG, VALIDSIG, TRUST_ marginal/fully/ultimate, no EXPKEYSIG/REVKEYSIG; monotonicity checked directly by raising each TRUST_ line. Part B (real gpg 2.2.40): 17 key/message states x 7 owner-trust values x entry points, gemato verify -K -R with -s/-P, 4 contents of the user GNUPGHOME x 3 key files with byte snapshots of the user home, and every single-byte mutation (xor 1, xor 0x20, delete, duplicate) of a signed body.',
+   note='Trusted: the acceptance predicate in the harness (restating the statement), GnuPG 2.2.40. Part B checks that every keyword gpg emits is in the Part A alphabet. DONT_CARE (must-accept direction only): several signatures in one run, extra failure keywords next to a satisfied predicate, status lines out of gpg order; mutations confined to trailing whitespace.',
+   ref='DESIGN.md §3 C05'),
 }
 NOT_YET = {}
 
